@@ -210,6 +210,9 @@ def check_next(ctx, prog, fn):
                 problems.append('a value is yielded on a path that does not pass the keep side of the expiry test of that very entry (an expired value can be reported)')
     if n_yield == 0:
         problems.append('undecided: next() never returns Some(..)')
+    ctx.add(RULE, fn, 'gate(yield after expiry test)', 'violation' if problems else 'ok',
+            '; '.join(problems[:2]) if problems else 'every yielded value passed the keep side of its own expiry test', ['C03'], line)
+    problems = []
     # every advance of the cursor passes through the expiry test; staying in place only after a removal
     drop_blocks = None
     for a, p in zip(cursor.args, cursor.extra['preds']):
@@ -220,8 +223,8 @@ def check_next(ctx, prog, fn):
             continue
         if not cfg.dominates(sw, p):
             problems.append('the scan can step over a stored copy without testing its expiration (cursor advanced at bb%d outside the expiry test)' % p)
-    ctx.add(RULE, fn, 'gate(yield after expiry test)', 'violation' if problems else 'ok',
-            '; '.join(problems[:2]) if problems else 'every yielded value passed the keep side of its own expiry test; every copy stepped over was tested', PROPS, line)
+    ctx.add(RULE, fn, 'gate(every copy stepped over is tested)', 'violation' if problems else 'ok',
+            '; '.join(problems[:2]) if problems else 'every copy the scan steps over was tested for expiry (so expired copies in scanned lists are dropped)', ['C16'], line)
     # -- 6 in place
     problems = []
     t = b.mir['blocks'][sw]['term']
